@@ -2,10 +2,11 @@ import Gallia.Proofs.Lemmas.SessionScan
 import Gallia.Proofs.Lemmas.SessionScanBfs
 import Gallia.Proofs.Lemmas.SessionScanReport
 import Gallia.Proofs.Lemmas.SessionScanSorted
+import Gallia.Gen.C09
 /-
   C09 — the session scan reports exactly the sessions reachable within the depth limit.
 
-  `scan c E` is the model of `SessionsScanner.main` (Model/SessionScan.lean); `E.g` is the ECU's session graph with
+  `scan c E` is the model of `SessionsScanner.main` (Model/SessionScan.lean); `edge c E` is the ECU's session graph with
   positive / negative / missing answers.  All theorems hold for every graph, every configuration (depth, skip list,
   thorough, reset, with-hooks, max_retry) - no bounds.  `(scan c E).aborted` is the `sys.exit(1)` the scanner takes
   when it cannot walk back along a stack; `scan_never_gives_up` shows that this never happens on an ECU in which
@@ -13,6 +14,55 @@ import Gallia.Proofs.Lemmas.SessionScanSorted
 -/
 namespace Gallia.C09
 open Gallia.SessionScan
+
+/-- (T) regenerated from the AST of `sessions.py` on every run: `set_session_with_hooks_handling` makes exactly two
+    `ECU.set_session` calls, the first with `skip_hooks=True`, the second with `skip_hooks=False`, both with
+    `use_db=False`, and the scanner calls `set_session` nowhere else - so a scan never replays session transitions stored
+    by an earlier scan of the same target, as the model (which has no database) assumes -/
+theorem calls_agree :
+    Gallia.Gen.C09.hooksHandlingCalls = setSessionCalls ∧ Gallia.Gen.C09.setSessionCallsInFile = setSessionCalls.length := by
+  decide
+
+/-- the graph the theorems are about, spelled out: an edge is positive iff the ECU answers `10 u` positively, or
+    `--with-hooks` is given, the plain attempt is refused with conditionsNotCorrect and the hooked attempt succeeds -/
+theorem edge_pos_iff (c : Cfg) (E : Ecu) (p u : Sess) :
+    edge c E p u = .pos ↔
+      E.g p u = .pos ∨ (c.hooks = true ∧ E.g p u = .nrc NRC_CNC ∧ hookedAns c E p u = .pos) := by
+  unfold edge
+  by_cases hc : c.hooks = true ∧ E.g p u = .nrc NRC_CNC
+  · rw [if_pos hc]
+    constructor
+    · intro h
+      right
+      refine ⟨hc.1, hc.2, ?_⟩
+      cases hv : hookedAns c E p u with
+      | pos => rfl
+      | silent => rw [hv] at h; cases h
+      | nrc n => rw [hv] at h; cases h
+    · rintro (h | ⟨_, _, h⟩)
+      · rw [hc.2] at h; cases h
+      · rw [h]
+  · rw [if_neg hc]
+    constructor
+    · exact Or.inl
+    · rintro (h | ⟨h1, h2, _⟩)
+      · exact h
+      · exact absurd ⟨h1, h2⟩ hc
+
+/-- without `--with-hooks` the effective graph is the ECU's graph -/
+theorem edge_base (c : Cfg) (E : Ecu) (h : c.hooks = false) : edge c E = E.g := by
+  funext p u
+  simp [edge, h]
+
+/-- with the base ECU class (no hook requests) a hooked attempt is answered like the plain one, so `--with-hooks`
+    only repeats the request and the effective graph is the ECU's graph -/
+theorem edge_base_class (c : Cfg) (E : Ecu) (h : c.preHook = []) : edge c E = E.g := by
+  funext p u
+  unfold edge hookedAns
+  simp only [h, List.isEmpty_nil, if_true]
+  split
+  · rename_i h'; rw [h'.2]
+  · rfl
 
 /-- The loop invariant holds for the final state of every scan that does not give up. -/
 theorem final_inv (c : Cfg) (E : Ecu) (hab : (scan c E).aborted = false) :
@@ -29,7 +79,7 @@ theorem final_inv (c : Cfg) (E : Ecu) (hab : (scan c E).aborted = false) :
     most `depth` entries (so `s` is entered by at most `depth` changes), and no skipped session is entered. -/
 theorem scan_sound (c : Cfg) (E : Ecu) (s : Sess) (σ : List Sess)
     (hab : (scan c E).aborted = false) (h : (s, σ) ∈ (scan c E).pos) :
-    σ.head? = some 1 ∧ ValidPath E.g (σ ++ [s]) ∧ σ.length ≤ c.depth ∧ ∀ x ∈ σ.tail ++ [s], x ∉ c.skip := by
+    σ.head? = some 1 ∧ ValidPath (edge c E) (σ ++ [s]) ∧ σ.length ≤ c.depth ∧ ∀ x ∈ σ.tail ++ [s], x ∉ c.skip := by
   obtain ⟨⟨j, hj, inv⟩, _⟩ := final_inv c E hab
   obtain ⟨hp, hok, hs, hl⟩ := inv.pos_ok _ h
   have hsn := hp.snoc hok hs
@@ -41,14 +91,14 @@ theorem scan_sound (c : Cfg) (E : Ecu) (s : Sess) (σ : List Sess)
 
 /-- the rows written to `session_transition` (and the "via stack" lines) are sound -/
 theorem transitions_sound (c : Cfg) (E : Ecu) (s : Sess) (σ : List Sess) (h : (s, σ) ∈ transitions (scan c E)) :
-    σ.head? = some 1 ∧ ValidPath E.g (σ ++ [s]) ∧ σ.length ≤ c.depth ∧ ∀ x ∈ σ.tail ++ [s], x ∉ c.skip := by
+    σ.head? = some 1 ∧ ValidPath (edge c E) (σ ++ [s]) ∧ σ.length ≤ c.depth ∧ ∀ x ∈ σ.tail ++ [s], x ∉ c.skip := by
   obtain ⟨hab, hp⟩ := mem_transitions h
   exact scan_sound c E s σ hab hp
 
 /-- every reported session satisfies the specification (whether or not the scan gave up: then nothing is
     reported) -/
 theorem result_sound (c : Cfg) (E : Ecu) (s : Sess) (h : s ∈ result (scan c E)) :
-    ReachWithin E.g c.skip s c.depth := by
+    ReachWithin (edge c E) c.skip s c.depth := by
   obtain ⟨hab, σ, hσ⟩ := (mem_result_iff _ _).1 h
   obtain ⟨⟨j, hj, inv⟩, _⟩ := final_inv c E hab
   obtain ⟨hp, hok, hs, hl⟩ := inv.pos_ok _ hσ
@@ -65,7 +115,7 @@ theorem result_sound (c : Cfg) (E : Ecu) (s : Sess) (h : s ∈ result (scan c E)
     session by 1..`depth` positive changes through non-skipped sessions - in first-visit mode as well as in
     thorough mode, whatever the cycles in the graph. -/
 theorem scan_complete (c : Cfg) (E : Ecu) (s : Sess) (hab : (scan c E).aborted = false)
-    (h : ReachWithin E.g c.skip s c.depth) : s ∈ result (scan c E) := by
+    (h : ReachWithin (edge c E) c.skip s c.depth) : s ∈ result (scan c E) := by
   obtain ⟨⟨j, _, inv⟩, hsearch⟩ := final_inv c E hab
   obtain ⟨k, h1, h2, hr⟩ := h
   cases hr with
@@ -77,12 +127,12 @@ theorem scan_complete (c : Cfg) (E : Ecu) (s : Sess) (hab : (scan c E).aborted =
     exact (mem_result_iff _ _).2 ⟨hab, σ, hσ⟩
 
 /-- On every ECU whose sessions can all re-enter the default session the scanner never takes `sys.exit(1)`. -/
-theorem scan_never_gives_up (c : Cfg) (E : Ecu) (hd : DefaultReentry E.g) : (scan c E).aborted = false :=
+theorem scan_never_gives_up (c : Cfg) (E : Ecu) (hd : DefaultReentry (edge c E)) : (scan c E).aborted = false :=
   scanLoop_noabort c E hd c.depth 0 initSt rfl (lvlInv_init c E)
 
 /-- **Exactly the reachable sessions** on the ECU class of the property. -/
-theorem scan_exact (c : Cfg) (E : Ecu) (hd : DefaultReentry E.g) (s : Sess) :
-    s ∈ result (scan c E) ↔ ReachWithin E.g c.skip s c.depth :=
+theorem scan_exact (c : Cfg) (E : Ecu) (hd : DefaultReentry (edge c E)) (s : Sess) :
+    s ∈ result (scan c E) ↔ ReachWithin (edge c E) c.skip s c.depth :=
   ⟨result_sound c E s, scan_complete c E s (scan_never_gives_up c E hd)⟩
 
 /-- A scan that gives up reports nothing and exits with status 1. -/
@@ -129,17 +179,44 @@ theorem skip_default_session_requested :
   decide +kernel
 
 /-- **Thorough mode** reports the same set of sessions as first-visit mode. -/
-theorem thorough_same_set (c : Cfg) (E : Ecu) (hd : DefaultReentry E.g) (s : Sess) :
+theorem thorough_same_set (c : Cfg) (E : Ecu) (hd : DefaultReentry (edge c E)) (s : Sess) :
     s ∈ result (scan { c with thorough := true } E) ↔ s ∈ result (scan { c with thorough := false } E) := by
-  rw [scan_exact _ E hd, scan_exact _ E hd]
+  rw [scan_exact { c with thorough := true } E hd, scan_exact { c with thorough := false } E hd]
+  exact Iff.rfl
+
+/-- **`--reset`** (ECUReset + `wait_for_ecu` before every probe, stack recovered afterwards) reports the same set of
+    sessions as the scan without it - whatever the ECU answers to the reset and however long it boots. -/
+theorem reset_same_set (c : Cfg) (E : Ecu) (hd : DefaultReentry (edge c E)) (level : Nat) (s : Sess) :
+    s ∈ result (scan { c with reset := some level } E) ↔ s ∈ result (scan { c with reset := none } E) := by
+  rw [scan_exact { c with reset := some level } E hd, scan_exact { c with reset := none } E hd]
+  exact Iff.rfl
+
+theorem reachIn_mono {g g' : Sess → Sess → Ans} (h : ∀ p u, g p u = .pos → g' p u = .pos) {skip : List Sess}
+    {k : Nat} {u : Sess} (hr : ReachIn g skip k u) : ReachIn g' skip k u := by
+  induction hr with
+  | zero => exact .zero
+  | step _ hg hs hm ih => exact .step ih (h _ _ hg) hs hm
+
+/-- **`--with-hooks`** only adds: every session reported without it is reported with it (the hooked second attempt
+    turns refused edges into positive ones, never the other way round). -/
+theorem with_hooks_superset (c : Cfg) (E : Ecu) (hd : DefaultReentry E.g) (s : Sess)
+    (h : s ∈ result (scan { c with hooks := false } E)) : s ∈ result (scan { c with hooks := true } E) := by
+  have hd0 : DefaultReentry (edge { c with hooks := false } E) := by rw [edge_base _ _ rfl]; exact hd
+  have hd1 : DefaultReentry (edge { c with hooks := true } E) := fun x => (edge_pos_iff _ E x 1).2 (Or.inl (hd x))
+  rw [scan_exact _ E hd0] at h
+  rw [scan_exact _ E hd1]
+  obtain ⟨k, h1, h2, hr⟩ := h
+  refine ⟨k, h1, h2, reachIn_mono (fun p u hg => ?_) hr⟩
+  rw [edge_base _ _ rfl] at hg
+  exact (edge_pos_iff _ E p u).2 (Or.inl hg)
 
 /-- The specification the correspondence harness evaluates on the real scanner's report is the one used above. -/
 theorem reachSet_is_spec (g : Sess → Sess → Ans) (skip : List Sess) (d : Nat) (u : Sess) :
     u ∈ reachSet g skip d ↔ ReachWithin g skip u d := mem_reachSet g skip d u
 
 /-- the model's report equals the executable specification, as sets -/
-theorem result_eq_reachSet (c : Cfg) (E : Ecu) (hd : DefaultReentry E.g) (s : Sess) :
-    s ∈ result (scan c E) ↔ s ∈ reachSet E.g c.skip c.depth := by
+theorem result_eq_reachSet (c : Cfg) (E : Ecu) (hd : DefaultReentry (edge c E)) (s : Sess) :
+    s ∈ result (scan c E) ↔ s ∈ reachSet (edge c E) c.skip c.depth := by
   rw [scan_exact c E hd, mem_reachSet]
 
 /-- `SessionsScanner.result` is strictly ascending (sorted, every session once) -/
@@ -148,8 +225,8 @@ theorem result_ascending (c : Cfg) (E : Ecu) : (result (scan c E)).Pairwise (· 
 /-- **The report, as a list, is the specification**: on the property's ECU class `SessionsScanner.result` equals
     the ascending list of the sessions reachable within the depth limit - this is the comparison the
     correspondence harness makes on the real scanner's output. -/
-theorem result_is_reachSet (c : Cfg) (E : Ecu) (hd : DefaultReentry E.g) :
-    result (scan c E) = reachSet E.g c.skip c.depth :=
+theorem result_is_reachSet (c : Cfg) (E : Ecu) (hd : DefaultReentry (edge c E)) :
+    result (scan c E) = reachSet (edge c E) c.skip c.depth :=
   eq_of_strict_of_mem_iff _ _ (result_strict _) (reachSet_strict _ _ _) (result_eq_reachSet c E hd)
 
 /-! Non-vacuity: the hypotheses are satisfiable by a non-trivial ECU, and session 3 of `demoEcu` is reachable
@@ -162,6 +239,29 @@ theorem demo_reach : ReachIn demoEcu.g [] 2 3 := by
 
 example : ReachWithin demoEcu.g [] 3 2 := ⟨2, by omega, by omega, demo_reach⟩
 example : 3 ∈ result (scan { depth := 2 } demoEcu) :=
-  (scan_exact _ _ (by intro s; simp [demoEcu]) 3).2 ⟨2, by omega, Nat.le_refl 2, demo_reach⟩
+  (scan_exact { depth := 2 } demoEcu (by intro s; simp [edge, demoEcu]) 3).2
+    ⟨2, by omega, Nat.le_refl 2, by rw [edge_base _ _ rfl]; exact demo_reach⟩
+
+/-! ### `--with-hooks` with an ECU class whose session hooks do something -/
+
+/-- 1 -> 2 is refused with conditionsNotCorrect unless the request is preceded by the session hook; 2 -> 3 is
+    plain; every session can return to 1 -/
+def hookEcu : Ecu :=
+  { g := fun p u => if u = 1 ∨ (p = 2 ∧ u = 3) then .pos else if p = 1 ∧ u = 2 then .nrc NRC_CNC else .nrc NRC_SFNS
+    rst := fun _ => .pos
+    gh := fun p u => if u = 1 ∨ (p = 1 ∧ u = 2) ∨ (p = 2 ∧ u = 3) then .pos else .nrc NRC_SFNS }
+
+def hookCfg (hooks : Bool) : Cfg := { depth := 3, hooks := hooks, preHook := [0x8502], postHook := [0x8501] }
+
+/-- without `--with-hooks` sessions 2 and 3 stay out of reach (2 is listed as identified but not entered) ... -/
+example : result (scan (hookCfg false) hookEcu) = [1] ∧ (negReported (scan (hookCfg false) hookEcu)).map (·.1) = [2] := by
+  decide +kernel
+
+/-- ... with `--with-hooks` the hooked second attempt enters 2, and 3 is found behind it -/
+example : result (scan (hookCfg true) hookEcu) = [1, 2, 3] := by decide +kernel
+
+/-- and that is what `scan_exact` says, with the edge 1 -> 2 of the effective graph coming from the hook -/
+example : edge (hookCfg true) hookEcu 1 2 = .pos ∧ edge (hookCfg false) hookEcu 1 2 = .nrc NRC_CNC := by decide
+example : DefaultReentry (edge (hookCfg true) hookEcu) := by intro s; simp [edge, hookEcu, hookCfg]
 
 end Gallia.C09
